@@ -902,8 +902,8 @@ class TypeBlocks(ContainerOperand):
                     if b.size == 1 and size_one_unity and not skipna:
                         # No function call is necessary; if skipna could turn NaN to zero.
                         end = pos + 1
-                        # Can assign an array, even 2D, as an element if size is 1
-                        out[pos] = b
+                        # Assign the single element (NumPy 2 no longer unpacks a size-one array on element assignment, and an object array would store the array itself)
+                        out[pos] = b.flat[0]
                     elif b.ndim == 1:
                         end = pos + 1
                         out[pos] = func(array=b, axis=axis)
